@@ -2,13 +2,18 @@ use crate::engine::Run;
 use serde_json::Value;
 
 pub mod c02;
+pub mod c08;
+pub mod c09;
 pub mod c10;
 pub mod c11;
 pub mod c12;
+pub mod c13;
 pub mod c14;
 pub mod c15;
 pub mod c16;
 pub mod c17;
+pub mod c18;
+pub mod c19;
 
 pub type RunFn = fn(&Run);
 pub type ReplayFn = fn(&Run, &str, &Value) -> Option<bool>;
@@ -16,11 +21,16 @@ pub type ReplayFn = fn(&Run, &str, &Value) -> Option<bool>;
 /// (id, evidence level, run, replay)
 pub const REGISTRY: &[(&str, &str, RunFn, ReplayFn)] = &[
     ("C02", "exploration", c02::run, c02::replay),
+    ("C08", "exploration", c08::run, c08::replay),
+    ("C09", "exploration", c09::run, c09::replay),
     ("C10", "exploration", c10::run, c10::replay),
     ("C11", "exploration", c11::run, c11::replay),
     ("C12", "exploration", c12::run, c12::replay),
+    ("C13", "exploration", c13::run, c13::replay),
     ("C14", "exploration", c14::run, c14::replay),
     ("C15", "exploration", c15::run, c15::replay),
     ("C16", "exploration", c16::run, c16::replay),
     ("C17", "exploration", c17::run, c17::replay),
+    ("C18", "exploration", c18::run, c18::replay),
+    ("C19", "exploration", c19::run, c19::replay),
 ];
